@@ -35,6 +35,7 @@ func init() {
 }
 
 func runC02(c *Ctx, r *Report) {
+	defer round8(c, r, "C02")
 	l := c.L
 	r.rule("C02-R1", "A (path conditions) + shape", "P1",
 		"alloc16/alloc32: the reslice slab.Ixx[offset:offset+size] is reached only under slab != nil and cap(slab.Ixx) > (or >=) offset+size, where the compared sum and the slice's high bound are the same expression over the parameters; the other return is make([]T, size)",
@@ -228,6 +229,7 @@ func constOf(l *Loaded, pkg, name string) (int64, bool) {
 }
 
 func runC03(c *Ctx, r *Report) {
+	defer round8(c, r, "C03")
 	l := c.L
 	r.rule("C03-R1", "H (constant relations)", "P1",
 		"scoreMatch==16, scoreGapStart==-3, scoreGapExtension==-1; bonusBoundary==scoreMatch/2, bonusNonWord==scoreMatch/2, bonusCamel123==bonusBoundary+scoreGapExtension, bonusConsecutive==-(scoreGapStart+scoreGapExtension), bonusFirstCharMultiplier==2; every value Init stores into bonusBoundaryWhite/Delimiter is >= bonusBoundary",
@@ -385,6 +387,7 @@ func runC03(c *Ctx, r *Report) {
 }
 
 func runC05(c *Ctx, r *Report) {
+	defer round8(c, r, "C05")
 	l := c.L
 	defer c03r6(c, r) // a scheme is a complete configuration: the score does not depend on the scheme initialised before
 	defer c05r12(c, r)
